@@ -508,7 +508,7 @@ fn c10_run(func: &str, replay: Option<Value>, seed: u64) -> Value {
     let mut rng = Rng::new(seed ^ 0x10);
     let t0 = std::time::Instant::now();
     let mut rnd = 0;
-    while rnd < 1200 && t0.elapsed().as_secs_f64() < 10.0 {
+    while rnd < 1200 && t0.elapsed().as_secs_f64() < 7.0 {
         let mut h = random_hist(&mut rng, 9, false);
         h.reload = false;
         let len = 1 + rng.below(8) as usize;
@@ -931,7 +931,7 @@ fn c11_run(func: &str, replay: Option<Value>, seed: u64) -> Value {
     let mut rng = Rng::new(seed ^ 0x11);
     let t0 = std::time::Instant::now();
     let mut rnd = 0;
-    while rnd < 800 && t0.elapsed().as_secs_f64() < 10.0 {
+    while rnd < 800 && t0.elapsed().as_secs_f64() < 7.0 {
         let mut h = random_hist(&mut rng, 9, false);
         h.reload = false;
         let n = h.n();
